@@ -255,6 +255,20 @@ class Dut:
             return prep0(v)
         w.put, w.prepare = put, prepare
 
+    def outputs_read_fallback(self):
+        """no PySyntax for this class: which output ports does the method source read with .get() (textual scan)"""
+        import inspect
+        try:
+            src = inspect.getsource(getattr(type(self.obj), 'clock' if self.seq else 'propagate'))
+        except Exception:
+            return list(self.out_ports)
+        out = []
+        for pn, w in self.out_ports.items():
+            attrs = [k for k, v in vars(self.obj).items() if v is w]
+            if any(re.search(r'self\.' + re.escape(a) + r'\s*\.\s*get\s*\(', src) for a in attrs) or not attrs:
+                out.append(pn)
+        return out
+
     def _state_names_fallback(self):
         return [k for k, v in vars(self.obj).items() if isinstance(v, int) and not isinstance(v, bool)
                 and k not in ('x', 'y') and not k.startswith('_')]
@@ -507,7 +521,7 @@ class Batch:
         if d.syntax:
             feedback = [p_['port'] for p_ in d.syntax['ports'] if p_['isOut'] and f"(get {p_['attr']})" in d.syntax['sexp']]
         else:
-            feedback = list(d.out_ports)
+            feedback = d.outputs_read_fallback()
         feedback += [n for n in d.state_names if n in jb['vobs']]
         stop = False
         for k in range(min(len(real), len(tr) - 1)):
